@@ -1324,12 +1324,13 @@ impl HelperAttributeKinds {
     }
 
     fn is_match(&self, attr: &Attribute) -> bool {
-        let p = attr.path();
-        let Some(i) = p.get_ident() else {
+        if is_derive_ex_attr(attr) {
+            return self.derive_ex;
+        }
+        let Some(name) = helper_attr_name(attr) else {
             return false;
         };
-        match i.to_string().as_str() {
-            "derive_ex" => self.derive_ex,
+        match name.as_str() {
             "default" => self.default,
             "debug" => self.debug,
             "ord" => self.is_match_cmp_attr(CompareOp::Ord),
@@ -1595,10 +1596,24 @@ fn remove_attrs(attrs: &mut Vec<Attribute>, kinds: &HelperAttributeKinds) {
     attrs.retain(|attr| !kinds.is_match(attr));
 }
 
+/// The name of a helper attribute: a single identifier, which may be written as a raw identifier.
+fn helper_attr_name(attr: &Attribute) -> Option<String> {
+    Some(attr.path().get_ident()?.unraw().to_string())
+}
+/// `#[derive_ex(..)]`, which may also be written with the path of the crate (`#[derive_ex::derive_ex(..)]`).
+fn is_derive_ex_attr(attr: &Attribute) -> bool {
+    let path = attr.path();
+    let is_name = |s: &syn::PathSegment| s.arguments.is_none() && s.ident.unraw() == "derive_ex";
+    match path.segments.len() {
+        1 => path.leading_colon.is_none() && is_name(&path.segments[0]),
+        2 => is_name(&path.segments[0]) && is_name(&path.segments[1]),
+        _ => false,
+    }
+}
 fn parse_derive_ex_attrs<T: Parse>(attrs: &[Attribute]) -> Result<Vec<T>> {
     let mut items = Vec::new();
     for attr in attrs {
-        if attr.path() == &parse_quote!(derive_ex) {
+        if is_derive_ex_attr(attr) {
             items.push(attr.parse_args()?);
         }
     }
@@ -1607,7 +1622,7 @@ fn parse_derive_ex_attrs<T: Parse>(attrs: &[Attribute]) -> Result<Vec<T>> {
 fn parse_single<T: Parse + Default>(attrs: &[Attribute], name: &str) -> Result<Option<T>> {
     let mut item = None;
     for attr in attrs {
-        if attr.path().is_ident(name) {
+        if helper_attr_name(attr).as_deref() == Some(name) {
             if item.is_some() {
                 bail!(attr.span(), "#[{}] was specified twice", name)
             }
